@@ -174,7 +174,23 @@ func child() {
 			n := 0
 			if msg != "" {
 				r := c.Append("INBOX", "", msg)
-				res = append(res, "append:"+strings.ToLower(r.Status()))
+				st := strings.ToLower(r.Status())
+				if strings.Contains(r.Err, "timeout") && !c.Dead {
+					// neither an answer nor a close: does the session go on?
+					c.Wait = 2 * time.Second
+					if !c.Cmd("NOOP").OK() {
+						st = "silent"
+					}
+					c.Wait = 4 * time.Second
+				}
+				res = append(res, "append:"+st)
+				if st == "silent" {
+					c.Close()
+					can := e.canary()
+					fmt.Fprintf(out, "res %s %s %s\n", id, can, strings.Join(res, " "))
+					out.Flush()
+					continue
+				}
 			}
 			sel := c.Cmd("SELECT INBOX")
 			for _, l := range sel.Untagged {
@@ -237,8 +253,26 @@ func child() {
 			res = append(res, st+":"+hx.H(r.Raw))
 			c.Close()
 		case "lmtp":
-			o, closed, err := talk(e.lmtpSock, hx.UnH(f[2]), 350*time.Millisecond)
-			res = append(res, fmt.Sprintf("%v:%v:%s", closed, err != nil, hx.H(o)))
+			script := hx.UnH(f[2])
+			o, closed, err := talk(e.lmtpSock, script, 350*time.Millisecond)
+			st := fmt.Sprintf("%v", closed)
+			if !closed && err == nil && strings.Contains(script, "\r\n.\r\n") && strings.Contains(o, "\r\n354 ") {
+				// the end of data was sent after a 354: replies must follow (one per recipient); wait for them in earnest
+				after := o[strings.LastIndex(o, "\r\n354 ")+2:]
+				if strings.Count(after, "\r\n") < 2 {
+					o2, closed2, _ := talkUntil(e.lmtpSock, script, 5*time.Second, "\r\n354 ")
+					_ = o2
+					o3, closed3, _ := talk(e.lmtpSock, script+"NOOP\r\n", 4*time.Second)
+					after3 := ""
+					if i := strings.LastIndex(o3, "\r\n354 "); i >= 0 {
+						after3 = o3[i+2:]
+					}
+					if !closed2 && !closed3 && strings.Count(after3, "\r\n") < 2 {
+						st = "stuck-after-data"
+					}
+				}
+			}
+			res = append(res, fmt.Sprintf("%s:%v:%s", st, err != nil, hx.H(o)))
 		case "sasl":
 			o, closed, err := talk(e.saslSock, hx.UnH(f[2]), 250*time.Millisecond)
 			res = append(res, fmt.Sprintf("%v:%v:%s", closed, err != nil, hx.H(o)))
@@ -465,6 +499,12 @@ func main() {
 				continue
 			}
 			rep.Hit(k.kind + ":" + st)
+			if st == "stuck-after-data" {
+				rep.Violate("impl-violation", "liveness (answer or close)", fmt.Sprintf("%s: the end of data is never answered and the connection stays open (4 s)", describe(k)), []string{replayLine(k)})
+			}
+			if r == "append:silent" {
+				rep.Violate("impl-violation", "liveness (answer or close)", fmt.Sprintf("%s: APPEND of the message gets no tagged answer and the connection stays open", describe(k)), []string{replayLine(k)})
+			}
 			if st == "silent" && k.kind == "imap" {
 				// neither an answer nor a close: the command hangs
 				rep.Violate("impl-violation", "liveness (answer or close)", fmt.Sprintf("%s: no tagged answer and the connection stays open", describe(k)), []string{replayLine(k)})
